@@ -21,9 +21,26 @@ def gen_cases(seed, tier):
         spec = G.gen_network(rng, kinds=("massaction", "massaction", "massaction") + tuple(G.HILL) + ("general",), nrx=(1, 4), nsp=(1, 4), max_order=rng.choice([2, 3, 5]),
                              general_pool=["kg*%s", "kg*%s*%s", "kg*%s/(1+%s)", "kg*%s^2/(Kg+%s^2)", "kg*exp(-%s/Kg)",
                                            "kg*exp(-%s^2/Kg)", "kg*1.1^%s^0.5", "kg*(2 - -%s^2/(1+%s^2))"])   # unary minus on a power, power towers: grammar-sensitive (S3_C14)
+        if rng.random() < 0.4: _plain_names(rng, spec)
         pts = [{s: float(rng.randint(0, 7)) for s in spec["x0"]} for _ in range(4)]
         cases.append({"spec": spec, "points": pts})
     return cases
+
+PLAIN = ["k", "K", "n", "cat", "k_cat", "on", "k_on", "kf", "kr", "k1", "off", "k_off"]   # not "deg": sympy reads it as a function (see DESIGN.md, observations)
+def _plain_names(rng, spec):
+    """rename the model's named parameters to the short names people use (k, K, n, cat / k_cat, on / k_on, ...): ids that are
+    prefixes, suffixes or '_'-separated parts of one another and of the exporter's own dummy ids (seeded change S4_C14: a textual
+    replacement of '_<parameter id>' inside the rate string)"""
+    import re
+    old = sorted(spec["parameters"]); new = list(PLAIN); rng.shuffle(new)
+    ren = dict(zip(rng.sample(old, min(len(old), len(new))), new))
+    spec["parameters"] = {ren.get(k_, k_): v for k_, v in spec["parameters"].items()}
+    for rx in spec["reactions"]:
+        for key, v in list(rx["params"].items()):
+            if key == "rate":
+                rx["params"]["rate"] = re.sub(r"[A-Za-z_][A-Za-z_0-9]*", lambda m_: ren.get(m_.group(0), m_.group(0)), v)
+            elif isinstance(v, str) and v in ren: rx["params"][key] = ren[v]
+    spec["plain_names"] = True
 
 def impl_case(case):
     import numpy as np, warnings, libsbml
@@ -116,7 +133,8 @@ def key(case): return json.dumps(case["spec"], sort_keys=True)
 def stats(cases):
     from collections import Counter
     return {"kinds": dict(Counter(rx["type"] for c in cases for rx in c["spec"]["reactions"])),
-            "orders": dict(Counter(str(len(rx["reactants"])) for c in cases for rx in c["spec"]["reactions"] if rx["type"] == "massaction"))}
+            "orders": dict(Counter(str(len(rx["reactants"])) for c in cases for rx in c["spec"]["reactions"] if rx["type"] == "massaction")),
+            "models_with_short_parameter_names": sum(1 for c in cases if c["spec"].get("plain_names"))}
 def shrink(case, fails):
     from harness.shrink import shrink_list
     spec = case["spec"]
